@@ -55,3 +55,11 @@ package common
 //@ func (RemoteUserLogin).Validate
 //@   modifies nothing
 //@   ensures[valid] result == nil <==> (o.Source != nil && o.PID > 0 && o.CredUserID != "")
+
+// os.ModeNamedPipe == 1 << 25 == 33554432. g_stat_info / g_stat_err: the result of the os.Stat call.
+//@ ghost g_stat_info : Int
+//@ ghost g_stat_err : Int
+//@ func IsNamedPipe
+//@   modifies g_stat_info, g_stat_err
+//@   ensures[mode] result == nil <==> (g_stat_err == 0 && hasbits(filemode(g_stat_info), 33554432))
+//@   ensures[staterr] g_stat_err != 0 ==> result == g_stat_err
